@@ -470,6 +470,12 @@ impl<'a> Validator<'a> {
 
     /// Validate an escape sequence.
     fn validate_escape(&mut self) -> Result<(), ValidationError> {
+        // Surrogate errors are reported at the escape that starts the unpaired
+        // surrogate: by the time all four hex digits have been consumed the
+        // input stopped being extendable to a valid document up to three bytes
+        // earlier (`\uDC..` is dead at its second digit), and the position an
+        // error reports must not lie beyond that point.
+        let escape_start = self.position();
         self.advance(); // consume backslash
 
         match self.peek() {
@@ -479,35 +485,47 @@ impl<'a> Validator<'a> {
             }
             Some(b'u') => {
                 self.advance();
-                let high = self.validate_unicode_escape()?;
+                // A malformed `\uXXXX` is likewise reported where the escape
+                // starts: once `\uD` has been read the digits that follow may
+                // already have ruled out every valid continuation (`\uDC`),
+                // so the position of the offending byte can be too late.
+                let at_escape = |e: ValidationError| ValidationError {
+                    position: escape_start,
+                    ..e
+                };
+                let high = self.validate_unicode_escape().map_err(at_escape)?;
 
                 // Check for surrogate pair
                 if (0xD800..=0xDBFF).contains(&high) {
                     // High surrogate - must be followed by \uXXXX low surrogate
                     if self.peek() != Some(b'\\') {
-                        return Err(
-                            self.error(ValidationErrorKind::UnpairedSurrogate { codepoint: high })
-                        );
+                        return Err(ValidationError {
+                            kind: ValidationErrorKind::UnpairedSurrogate { codepoint: high },
+                            position: escape_start,
+                        });
                     }
                     self.advance();
                     if self.peek() != Some(b'u') {
-                        return Err(
-                            self.error(ValidationErrorKind::UnpairedSurrogate { codepoint: high })
-                        );
+                        return Err(ValidationError {
+                            kind: ValidationErrorKind::UnpairedSurrogate { codepoint: high },
+                            position: escape_start,
+                        });
                     }
                     self.advance();
 
-                    let low = self.validate_unicode_escape()?;
+                    let low = self.validate_unicode_escape().map_err(at_escape)?;
                     if !(0xDC00..=0xDFFF).contains(&low) {
-                        return Err(
-                            self.error(ValidationErrorKind::UnpairedSurrogate { codepoint: high })
-                        );
+                        return Err(ValidationError {
+                            kind: ValidationErrorKind::UnpairedSurrogate { codepoint: high },
+                            position: escape_start,
+                        });
                     }
                 } else if (0xDC00..=0xDFFF).contains(&high) {
                     // Lone low surrogate
-                    return Err(
-                        self.error(ValidationErrorKind::UnpairedSurrogate { codepoint: high })
-                    );
+                    return Err(ValidationError {
+                        kind: ValidationErrorKind::UnpairedSurrogate { codepoint: high },
+                        position: escape_start,
+                    });
                 }
 
                 Ok(())
